@@ -206,7 +206,8 @@ CallBad(pre, a, e, g, stl, lst) ==
     \* their own properties; anywhere else an entry that vanished was LOST, which the
     \* map property C04 forbids (and C03: nothing leaves without being asked for)
     \cup {<<p, "keyset">>     : p \in IF sameKeys THEN {} ELSE
-                                  IF a.op \in EvictingOps /\ Succeeded(a, [ret |-> e.ret]) THEN {"C03"}
+                                  IF a.op \in EvictingOps /\ Succeeded(a, [ret |-> e.ret])
+                                  THEN {"C03"} \cup (IF a.op = "mutate" THEN {"C11"} ELSE {})
                                   ELSE IF a.op = "retain" THEN {"C15"}
                                   ELSE IF a.op \in IterKinds THEN {"C12"} ELSE {"C04", "C03"}}
     \cup {<<p, "stored_sizes">> : p \in IF sameKeys /\ \E i \in DOMAIN post.ord :
